@@ -55,7 +55,7 @@ def run_driver(driver, json_path, scratch):
             return None, 'driver build failed: ' + r.stderr[-1500:]
     env = dict(os.environ, ASAN_OPTIONS='detect_leaks=1:abort_on_error=0:exitcode=99', UBSAN_OPTIONS='print_stacktrace=1:exitcode=98')
     try:
-        r = subprocess.run([exe, json_path], capture_output=True, text=True, timeout=120, env=env)
+        r = subprocess.run([exe, json_path], capture_output=True, text=True, errors='replace', timeout=120, env=env)
     except subprocess.TimeoutExpired:
         return True, 'native replay did not terminate within 120 s'
     out = (r.stdout + r.stderr)[-4000:]
